@@ -51,6 +51,7 @@ def check(ctx):
     for q in ("skchange.change_detectors.base.ChangeDetector", "skchange.anomaly_detectors.base.CollectiveAnomalyDetector", "skchange.anomaly_detectors.base.SubsetCollectiveAnomalyDetector"):
         ctx.guard("C04.a FORMATTER", q.split(".")[-1], lambda q=q: check_formatter(ctx, ctx.P.cls(q)))
     shared(ctx)
+    ctx.guard("C04.c RANGE", "MovingWindow|threshold-nonnegative", lambda: mw_threshold_nonnegative(ctx))
     ctx.expect_min("C04.a FMT-POSTDOM", sum(1 for o in ctx.obs if o.rule == "C04.a FMT-POSTDOM" and o.status == "HOLDS"), 7)
     ctx.expect_min("C04", len([o for o in ctx.obs if o.status == "HOLDS"]), 40)
 
@@ -259,6 +260,51 @@ def shared(ctx):
         ctx.obs[before:] = kept
     # PELT and CAPA: the newest admissible start leaves a segment of exactly m samples
     newest_start(ctx)
+
+
+def mw_threshold_nonnegative(ctx):
+    """F-28.  The moving-window scores are 0 in the b - 1 unscored positions at either end; with a NEGATIVE threshold those
+    positions exceed it, the whole series becomes one run and (for constant data) position 0 is reported - outside
+    [bandwidth, n - bandwidth].  The default threshold is an asymptotic formula that turns negative for levels close to
+    1 (n = 2b, level = 0.999).  Obligation: every value MovingWindow.get_default_threshold returns is non-negative by
+    construction (a maximum with 0, or a non-negative constant).  The tuned threshold is a quantile of the scores and is
+    non-negative when they are (an assumption on the score, stated in the evidence)."""
+    rule = "C04.c RANGE"
+    cls = ctx.P.public_class(CD, "MovingWindow")
+    f = ctx.P.lookup_method(cls, "get_default_threshold")
+    if f is None:
+        ctx.undecided(rule, "MovingWindow|threshold-nonnegative", cls.module.relpath, "MovingWindow.get_default_threshold not found (anchor vanished)")
+        return
+    from .common import new_executor, returns, run
+    from ..nf import single_atom
+
+    ex = new_executor(ctx)
+
+    def thunk(ex):
+        kw = {}
+        for q in f.params:
+            if q in ("self", "cls"):
+                continue
+            kw[q] = Num(sym(q), (), "float" if q == "level" else "int")
+        return ex.call_function(f, [], kw, None, None)
+
+    paths = run(ctx, ex, thunk)
+    rets = returns(paths)
+    if not rets:
+        ctx.undecided(rule, "MovingWindow|threshold-nonnegative", f.loc(), "get_default_threshold never returns in the scenario")
+        return
+    for p in rets:
+        v = p.value
+        ok = False
+        found = repr(v)[:160]
+        if isinstance(v, Num) and v.nf is not None:
+            c = v.nf.as_const()
+            a = single_atom(v.nf)
+            if c is not None:
+                ok = c >= 0
+            elif a is not None and a.kind == "max":
+                ok = any(lift(x).as_const() is not None and lift(x).as_const() >= 0 for x in a.args)
+        ctx.check(ok, rule, "MovingWindow|threshold-nonnegative", f.loc(), "the default threshold is non-negative by construction (the scores are 0 in the unscored margins: a negative threshold reports positions outside [bandwidth, n - bandwidth])", found=found, expected="max(<formula>, 0)")
 
 
 def newest_start(ctx):
